@@ -151,6 +151,7 @@ def replay_schedule(rep):
     from .. import env, engine_t, lin
     r = rep["replay"]
     env.install()
+    env.STATE.list_reverse = r["spec"].get("listing") == "reverse"
     sc = tscen.make_scenario(r["spec"])
     root = os.path.join(common.scratch(), "store")
     trace = []
